@@ -14,7 +14,10 @@ Local Open Scope N_scope.
    chunks); BEGIN pushes &evt, END takes top() and pops, a stray END breaks out of the chunk
    loop before printing; the utilisation counter needs duration > 100; tids count from 0;
    getThreadTraceList takes the lock first, looks the id up and inserts a new list only when the
-   id is absent; the recording entry points fill a static thread_local cache from it once *)
+   id is absent; the recording entry points fill a static thread_local cache from it once;
+   getCachedString is `find by pointer; insert a copy if absent; return the mapped string` and
+   ThreadEventList has no data member besides events, threadName, stringCache; every name and
+   category an event stores went through it *)
 Theorem facts_trace_match : tr_eqb gen_tr model_tr = true.
 Proof. exact FactsCheckTrace.tr_match_lemma. Qed.
 Print Assumptions facts_trace_match.
@@ -26,6 +29,7 @@ Theorem facts_trace_model :
   (forall pid tid cs st, emit_chunks_of gen_tr pid tid cs st = emit_chunks pid tid cs st) /\
   (forall b e, is_long_of gen_tr b e = is_long b e) /\
   tr_chunk gen_tr = chunk_size /\ tr_reserve gen_tr = chunk_size /\
-  (forall r id, reg_attach_of gen_tr r id = reg_attach r id).
+  (forall r id, reg_attach_of gen_tr r id = reg_attach r id) /\
+  (forall c p text, sc_lookup_of gen_tr c p text = Some (sc_lookup c p text)).
 Proof. exact FactsCheckTrace.tr_sound_lemma. Qed.
 Print Assumptions facts_trace_model.
